@@ -149,6 +149,22 @@ class LoopProg:
             return f"{ind}{self.ret(env)}"
         s, rest = stmts[0], stmts[1:]
         env = {k: (dict(v) if isinstance(v, dict) else v) for k, v in env.items()}
+        if env.get("methalias"):
+            al = env["methalias"]
+
+            class _Sub(ast.NodeTransformer):
+                def visit_Call(self_, node):
+                    self_.generic_visit(node)
+                    if isinstance(node.func, ast.Name) and node.func.id in al:
+                        return ast.copy_location(ast.Call(func=al[node.func.id], args=node.args, keywords=node.keywords), node)
+                    return node
+            import copy
+            if not isinstance(s, (ast.If, ast.For, ast.While, ast.Try)):
+                s = _Sub().visit(copy.deepcopy(s))
+            else:
+                s = copy.copy(s)
+                if isinstance(s, ast.If):
+                    s.test = _Sub().visit(copy.deepcopy(s.test))
         if isinstance(s, ast.Return):
             if s.value is not None and not is_none(s.value) and not (
                     isinstance(s.value, ast.Name) and (s.value.id in env["keys"] or s.value.id in env["hs"])):
@@ -164,6 +180,10 @@ class LoopProg:
             name, v = s.targets[0].id, s.value
             if self.is_loop(v, env):
                 env["loops"].add(name)
+                return self.block(rest, env, ind)
+            if isinstance(v, ast.Attribute) and self.is_loop(v.value, env):
+                # `find = loop.queue_find`: a bound-method alias; its calls are calls of the method
+                env["methalias"] = {**env.get("methalias", {}), name: v}
                 return self.block(rest, env, ind)
             if dotted(getattr(v, "func", None)) == "asyncio.current_task" and not v.args:
                 env["me"] = set(env.get("me", ())) | {name}
@@ -770,6 +790,13 @@ class ViewProg:
                 and env.get(e.value.id, (None, None))[1] == "handle":
             return env[e.value.id][0], "cb"
         if is_call(e, name="getattr") and len(e.args) == 3 and is_none(e.args[2]) \
+                and isinstance(e.args[1], ast.Constant) and e.args[1].value == "__self__":
+            # the try/except-AttributeError read with the default None: as an object, None is "not a Task"
+            # (`isinstance(None, TaskTypes)` is False), the same as a callback bound to something else
+            c, k = self.val(e.args[0], env)
+            if k == "cb":
+                return f"(match {c}.self_ with | none => none | some o => o)", "obj"
+        if is_call(e, name="getattr") and len(e.args) == 3 and is_none(e.args[2]) \
                 and isinstance(e.args[1], ast.Constant) and e.args[1].value == "__name__":
             c, k = self.val(e.args[0], env)
             if k == "cb":
@@ -791,6 +818,14 @@ class ViewProg:
                 return f"(match {a} with | some n => if n = \"\" then {b} else n | none => {b})", "str"
             if ka == "str" and kb == "str":
                 return f"(if {a} = \"\" then {b} else {a})", "str"
+        if isinstance(e, ast.IfExp):
+            # `n if n else T` on an optional string is `n or T`; otherwise a conditional on strings
+            if isinstance(e.test, ast.Name) and isinstance(e.body, ast.Name) and e.test.id == e.body.id:
+                return self.val(ast.BoolOp(op=ast.Or(), values=[e.body, e.orelse]), env)
+            (a, ka), (b, kb) = self.val(e.body, env), self.val(e.orelse, env)
+            if ka == "str" and kb == "str":
+                return f"(if {self.cond(e.test, env)} = true then {a} else {b})", "str"
+            raise Unsupported("conditional expression on these values")
         if isinstance(e, ast.Constant) and isinstance(e.value, str):
             return '"' + e.value.replace('\\', '\\\\').replace('"', '\\"') + '"', "str"
         raise Unsupported(f"value {ast.dump(e)[:80]}")
@@ -841,6 +876,8 @@ class ViewProg:
             return self.cond(e, env)
         if e is None or is_none(e):
             return "none"
+        if isinstance(e, ast.IfExp):
+            return f"(if {self.cond(e.test, env)} = true then {self.result(e.body, env)} else {self.result(e.orelse, env)})"
         v, k = self.val(e, env)
         if k == "obj":
             return v                                # the object bound to the callback, if it is a Task
